@@ -110,6 +110,56 @@ def castWith (R : RepOps) (t : Ty) (x : Num) : Res Num :=
   | .rd rd .nat, .rd rs .nat => (R.cast rd (rs, x.2)).map (fun v => (.rd v.1 .nat, v.2))
   | _, _ => .ill "conversion outside the model"
 
+/-- the type of `x << constant<k>` / `x >> constant<k>` when `x` is an `overflow_integer` or a
+`rounding_integer` (`wrapper/shift_operator.h`: the wrapper of the shifted representation) -/
+def shiftTyWith (R : RepOps) (t : Ty) (k : Nat) : Ty :=
+  match t with
+  | .ov r tag => .ov (R.shlConstTy r k) tag
+  | .rd r m => .rd (R.shlConstTy r k) m
+  | o => R.shlConstTy o k
+
+/-- `power_value_fn<S, n, Radix>` for `Radix != 2`: `S{1} * Radix * … * Radix`, each product the
+wrapper's own operator with an `int` on the right -/
+def powerGoWith (R : RepOps) (radix : Nat) : Nat → Num → Res Num
+  | 0, acc => .ok acc
+  | n+1, acc => binWith R .mul acc (.int i32, (radix : Int)) >>= powerGoWith R radix n
+
+/-- `power_value<S, k, radix>()` (`_impl/power_value.h`) for a wrapper type `S`.  Radix 2:
+`decltype(s >> constant<digits_v<S> - 1>){1} << constant<k>` — the shifts are the wrapper's own
+operators, so the power has the promoted representation type and the shift is executed (and is
+undefined for counts of the promoted width or more); there is no `static_assert` for a class type. -/
+def powerValueWith (R : RepOps) (S : Ty) (k radix : Nat) : Res Num :=
+  if k = 0 then .ok (S, 1)
+  else if radix = 2 then shiftWith R .shl (shiftTyWith R S k, 1) (.int i32, (k : Int))
+  else powerGoWith R radix k (S, 1)
+
+/-- `_impl::default_scale<k, radix, S>` (`num_traits/scale.h`) for a wrapper type `S`:
+`s * power_value<S, k, radix>()` resp. `s / power_value<S, -k, radix>()` with the wrapper's operators -/
+def defaultScaleWith (R : RepOps) (k : Int) (radix : Nat) (x : Num) : Res Num :=
+  if k ≥ 0 then powerValueWith R x.1 k.toNat radix >>= fun p => binWith R .mul x p
+  else powerValueWith R x.1 (-k).toNat radix >>= fun p => binWith R .div x p
+
+/-- `cnl::scale<k, radix>` of a wrapper.
+* `rounding_integer.h`: `k ≥ 0` is `from_rep<rounding_integer<Rep, Tag>>(scale<k, radix, Rep>(to_rep(s)))`, which
+  adopts the (promoted) type of the scaled representation; `k < 0` is specialised for radix 2 only and is
+  `default_scale`, i.e. the tagged division by the power.
+* `overflow_integer.h` (native tag modelled): `default_scale`, returned as
+  `decltype(from_rep<S>(scale<k, radix>(to_rep(s))))`; naming that type instantiates `scale` of the
+  representation, so the instantiation is ill-formed whenever that one is; the type itself is the type the
+  product / quotient already has.
+* no `scale` is defined for a `scaled_integer` (it cannot be the representation of another scaled_integer). -/
+def scaleWith (R : RepOps) (k : Int) (radix : Nat) (x : Num) : Res Num :=
+  match x.1 with
+  | .rd r m =>
+    if k ≥ 0 then (R.scale k radix (r, x.2)).map (fun v => (.rd v.1 m, v.2))
+    else if radix = 2 then defaultScaleWith R k radix x
+    else .ill "scale<negative, radix != 2> of a rounding_integer: no specialisation"
+  | .ov r .nat =>
+    match R.scale k radix (r, x.2) with
+    | .ill m => .ill m
+    | _ => defaultScaleWith R k radix x
+  | _ => .ill "scale of this representation: not defined / not modelled"
+
 def ops : Nat → RepOps
   | 0 => intOps
   | n+1 =>
@@ -123,11 +173,11 @@ def ops : Nat → RepOps
       pos := unWith R .pos
       scale := fun k radix x => match x.1 with
         | .int _ => intOps.scale k radix x
-        | _ => .ill "scale of a wrapper: not modelled at this level"
+        | _ => scaleWith R k radix x
       cast := castWith R
       shlConstTy := fun t k => match t with
         | .int a => .int (promote a)
-        | o => R.shlConstTy o k }
+        | o => shiftTyWith R o k }
 
 def level (x y : Num) : Nat := max x.1.depth y.1.depth
 
